@@ -326,6 +326,33 @@ func bn254Subjects(r *Rng) []*subject {
 		h, _ := bn254fr.Hash(msg, []byte("d"), 2)
 		return []any{&a, &b, &c, &d, x.Text(16), h}
 	}})
+	// text conversions of full-size elements (small values take a strconv shortcut that never touches the pool), several fields
+	for _, fname := range []string{"bn254/fr", "bls12-381/fp", "bw6-761/fp", "secp256k1/fp", "stark-curve/fr"} {
+		f := fields[fname]
+		if f == nil {
+			continue
+		}
+		y := f.NewRaw(r.Below(f.Q))
+		z := f.NewRaw(new(big.Int).Sub(f.Q, big.NewInt(1)))
+		subs = append(subs, &subject{name: fname + ".text", shared: []any{y, z}, run: func(int) any {
+			var out []any
+			for _, e := range []reflect.Value{y, z} {
+				out = append(out, method(e, "Text").Call([]reflect.Value{reflect.ValueOf(10)})[0].String(),
+					method(e, "Text").Call([]reflect.Value{reflect.ValueOf(16)})[0].String(),
+					method(e, "String").Call(nil)[0].String())
+				if m := e.MethodByName("MarshalJSON"); m.IsValid() {
+					out = append(out, string(m.Call(nil)[0].Bytes()))
+				}
+				bi := new(big.Int)
+				method(e, "BigInt").Call([]reflect.Value{reflect.ValueOf(bi)})
+				out = append(out, bi.String())
+				w := f.New()
+				method(w, "SetString").Call([]reflect.Value{reflect.ValueOf(bi.String())})
+				out = append(out, w)
+			}
+			return out
+		}})
+	}
 	return subs
 }
 
